@@ -24,7 +24,7 @@ fn hub_sync(local: &Path, hub: &Path) -> (Option<i32>, String) {
         Ok(o) => (o.status.code(), format!("{}{}", String::from_utf8_lossy(&o.stdout), String::from_utf8_lossy(&o.stderr))), Err(e) => (Some(-1), e.to_string()) }
 }
 pub fn scenarios() -> Vec<(&'static str, fn() -> Option<String>)> {
-    vec![("lands-the-tree-and-skips-what-is-there (C13)", sc_lands_and_skips), ("exit-0-means-every-local-file-is-on-the-hub (C13)", sc_refused_files), ("stale-listing-with-256-contended-paths (C13)", sc_stale_256), ("stale-listing-never-overwrites (C13)", sc_stale_listing), ("host-root-targets (C13)", sc_remote_targets)]
+    vec![("lands-the-tree-and-skips-what-is-there (C13)", sc_lands_and_skips), ("exit-0-means-every-local-file-is-on-the-hub (C13)", sc_refused_files), ("stale-listing-with-256-contended-paths (C13)", sc_stale_256), ("two-stale-losers-keep-both-versions (C13)", crate::serve_w::sc_two_losers), ("stale-listing-never-overwrites (C13)", sc_stale_listing), ("host-root-targets (C13)", sc_remote_targets)]
 }
 /// inode of every hub file: a Put publishes by rename, so a re-sent file gets a new inode (independent of message wording)
 fn inodes(r: &Path) -> BTreeMap<String, u64> {
